@@ -1104,3 +1104,43 @@ Lemma shared_calm_example_ok :
   ops_calm Shared t_init shared_calm_example = true /\
   ops_calm Shared t_init lost_stop_witness = false.
 Proof. split; [eexists; vm_compute; reflexivity|]. split; vm_compute; reflexivity. Qed.
+
+(* ==== the property's last sentence: once stopped (handshake approved, hello phase left,
+   connection closed ...) no timeout is committed until a timer is armed again ==== *)
+Definition is_arm (l : label) : bool := match l with LArm _ _ _ => true | _ => false end.
+
+Lemma iexec_stays_disarmed l : forall i i',
+  iexec i (proj_all l) = Some i' -> i_armed i = None -> forallb (fun a => negb (is_arm a)) l = true ->
+  i_armed i' = None.
+Proof.
+  induction l as [|a l IH]; intros i i' H A NA; simpl in *.
+  - inversion H; subst; exact A.
+  - apply andb_true_iff in NA as [Na Nl].
+    destruct a as [ty d to|to|g|g|g|g]; simpl in Na; try discriminate.
+    + (* stop *) simpl in H. apply (IH {| i_n := i_n i; i_armed := None |} i' H eq_refl Nl).
+    + (* advance *) simpl in H. apply (IH i i' H A Nl).
+    + (* expire *) simpl in H. apply (IH i i' H A Nl).
+    + (* fire: not enabled while disarmed *) simpl in H. rewrite A in H. simpl in H. discriminate.
+    + (* deliver *) simpl in H. apply (IH i i' H A Nl).
+Qed.
+
+Lemma proj_all_app a b : proj_all (a ++ b) = proj_all a ++ proj_all b.
+Proof. unfold proj_all. apply flat_map_app. Qed.
+
+Lemma src_no_timeout_after_stop m : src_mech = Some m ->
+  forall pre to post s g,
+    exec m t_init (pre ++ LStop to :: post) = Some s ->
+    forallb (fun a => negb (is_arm a)) post = true ->
+    ~ In (LFire g) post.
+Proof.
+  intros Hm pre to post s g H NA Hin.
+  apply in_split in Hin as (p1 & p2 & E). subst post.
+  replace (pre ++ LStop to :: p1 ++ LFire g :: p2) with ((pre ++ LStop to :: p1) ++ LFire g :: p2) in H
+    by (rewrite <- app_assoc; reflexivity).
+  destruct (src_fire_only_when_armed m Hm _ g p2 s H) as (i & E & A).
+  rewrite proj_all_app in E. rewrite iexec_app in E.
+  destruct (iexec ideal_init (proj_all pre)) as [i0|] eqn:E0; [|discriminate].
+  change (proj_all (LStop to :: p1)) with (IStop :: proj_all p1) in E. simpl in E.
+  rewrite forallb_app in NA. apply andb_true_iff in NA as [NA1 _].
+  pose proof (iexec_stays_disarmed p1 _ i E eq_refl NA1) as A'. congruence.
+Qed.
